@@ -22,11 +22,12 @@ META = {
     "coq_targets": ["Props/C17.vo", "Extract/Extract_C17.vo"],
     "technique": "Coq proof (loop invariant through the six steps of the pipeline: used columns + props_left is a permutation of the source columns, mapping keys distinct, no leftover column spelled like an assigned key) + differential correspondence of the extracted model with the implementation under recorded difflib answers",
     "level_text": "Theorems C17_partition / C17_partition_edge / C17_exact / C17_exact_edge hold for every list of distinct columns, every required list, every feature dict and every answer of the fuzzy matcher that is one of its candidates (no bound on sizes); the hand-written model is tied to /repo by running the extracted model and the implementation on the same generated column lists (same difflib answers) and comparing the resulting maps as ordered (key, value) lists. C17_infer_node_is_generated / C17_infer_edge_is_generated: the model functions equal, for all arguments, the code translated on every run from the current _name_mapping.py (Gen/NameMapping_gen.v; fail-closed translator), and the Python raises nothing on these inputs.",
-    "level_note": "Trusted: Coq kernel, extraction (ExtrOcamlBasic), OCaml driver, Python harness. Modelled not verified: str.lower and difflib.get_close_matches (oracle arguments of the model; the theorem only assumes that an answer is one of the candidates), Python dict/list semantics (Base/Dict.v).",
+    "level_note": "Trusted: Coq kernel, extraction (ExtrOcamlBasic), OCaml driver, Python harness. Modelled not verified: str.lower and difflib.get_close_matches (oracle arguments of the model; the theorem only assumes that an answer is one of the candidates), Python dict/list semantics (Base/Dict.v). Tied to the source in a second way: _name_mapping.py is re-translated on every run (harness/translate_pure.py + translate_name_mapping.py, fail closed; combinators Model/PyRt2.v) and proved equal to the model for all arguments (Proofs/NameMapTie.v).",
     "design_ref": "DESIGN.md section 9 (C17), line 531 of the technique table",
     "assumptions": ["source column names are pairwise distinct (NoDup cols)",
                     "difflib.get_close_matches returns one of the candidates it was given (closest_sound)"],
-    "trusted": ["difflib.get_close_matches / str.lower: answers recorded from the implementation run and fed to the model as oracle tables (order of candidates included)"],
+    "trusted": ["translator harness/translate_pure.py + translate_name_mapping.py (closed idiom table; fail closed) with coq/Model/PyRt2.v",
+                "difflib.get_close_matches / str.lower: answers recorded from the implementation run and fed to the model as oracle tables (order of candidates included)"],
 }
 
 SEG_ID = "seg_id"
